@@ -566,7 +566,8 @@ def otherArm (r : Resp) : Option (Nat × Action) :=
   | some n =>
     if r.key.starts2 then
       some (n, if r.content.isEmpty then .retNone else .retSecondary (secondaryRet r))
-    else some (n, .raiseAlias n)
+    -- `elif is_error_code(code): raise <alias>` / `else: raise HTTPError(…"Unhandled status code"…)` (F3 repaired)
+    else some (n, if (aliasBase n).isSome then .raiseAlias n else .raiseUnhandled)
 
 /-- The `case <int>:` arms of the emitted `match`, in order. -/
 def arms (rs : List Resp) : List (Nat × Action) :=
@@ -588,13 +589,6 @@ def selectAction (rs : List Resp) (status : Nat) : Action :=
   | none => defaultAction rs
 
 /-! ## can the emitted module be imported at all? -/
-
-/-- A declared numeric status that does not start with `2` is raised through an alias class that must
-    exist in `core/exception_aliases.py`; the emitter writes classes for 4xx and 5xx only. -/
-def aliasesOk (rs : List Resp) : Bool :=
-  rs.all (fun r => match r.key.code? with
-    | some n => r.key.starts2 || (aliasBase n).isSome
-    | none => true)
 
 /-- `yield` (a streaming strategy return is emitted) together with a `return <value>` arm. -/
 def hasYield (rs : List Resp) : Bool :=
@@ -618,7 +612,7 @@ def defNames (op : Op) : List Str := "self".toList :: (sigOf op).map (·.1)
 
 def moduleOk (op : Op) : Bool :=
   decide (defNames op).Nodup && (defNames op).all (fun n => !n.isEmpty) && literalsOk op &&
-  aliasesOk op.responses && !(hasYield op.responses && hasValueReturn op.responses)
+  !(hasYield op.responses && hasValueReturn op.responses)
 
 /-! ## the request -/
 
